@@ -473,7 +473,7 @@ def r4_folding(F, R):
     reff = ref("rv32im_formats.json")["folding"]
     want = {}
     for opn, insts in reff.items():
-        if opn.startswith("_") or opn in ("extension", "note"):
+        if opn.startswith("_") or not isinstance(insts, list):
             continue
         for i in insts:
             want[i] = opn
